@@ -53,6 +53,7 @@
 */
 
 #include <stdio.h>
+#include <stdlib.h>
 #include <string.h>
 
 #include "d_string.h"
@@ -106,6 +107,16 @@ void mmd_transclude_source(DString * source, const char * search_path, const cha
 
 			// Calculate new search path relative to source document
 			search_folder = path_from_dir_base(source_folder, temp);
+
+			// Use the canonical name of that folder -- otherwise a base such
+			// as `.` makes the path of a file that includes itself longer at
+			// each level, and the check for recursive loops never matches
+			char * canonical = realpath(search_folder, NULL);
+
+			if (canonical) {
+				free(search_folder);
+				search_folder = canonical;
+			}
 		}
 	}
 
